@@ -24,6 +24,9 @@ type chunkReader struct {
 	chunks []int
 	k      int
 	pause  time.Duration
+	// eofWithData: the last chunk is returned together with io.EOF, as the io.Reader contract
+	// allows (HTTP bodies, decompressors, iotest.DataErrReader do this)
+	eofWithData bool
 }
 
 func (c *chunkReader) Read(p []byte) (int, error) {
@@ -43,6 +46,9 @@ func (c *chunkReader) Read(p []byte) (int, error) {
 	}
 	copy(p, c.data[:n])
 	c.data = c.data[n:]
+	if c.eofWithData && len(c.data) == 0 {
+		return n, io.EOF
+	}
 	return n, nil
 }
 
@@ -120,7 +126,7 @@ func runPipe(t []string) *Obs {
 		}()
 		var cfg jsonconfig.Config
 		ac := appcore.New(&cfg, channels)
-		ac.HandleMessagesUntilEOF(start, bufio.NewReader(&chunkReader{data: append([]byte{}, bs...), chunks: chunks, pause: time.Millisecond}))
+		ac.HandleMessagesUntilEOF(start, bufio.NewReader(&chunkReader{data: append([]byte{}, bs...), chunks: chunks, pause: time.Millisecond, eofWithData: kv["eof"] == "with-data"}))
 		done <- ""
 	}()
 	select {
@@ -250,8 +256,16 @@ func init() {
 				if strings.Contains(strings.Join(caps, ","), "nil") {
 					class = "with-nil-consumer"
 				}
-				emit(class, fmt.Sprintf("pipe %s %s chunks=%s caps=%s delays=%s procs=%d", defaultStart, hx(bs), strings.Join(chunks, ","),
-					strings.Join(caps, ","), strings.Join(delays, ","), []int{1, 2, 4, 16}[r.Intn(4)]))
+				eof := "bare"
+				if r.Intn(3) == 0 {
+					// the source returns its last bytes together with io.EOF
+					eof = "with-data"
+					if class == "mixed" {
+						class = "eof-with-last-data"
+					}
+				}
+				emit(class, fmt.Sprintf("pipe %s %s chunks=%s caps=%s delays=%s procs=%d eof=%s", defaultStart, hx(bs), strings.Join(chunks, ","),
+					strings.Join(caps, ","), strings.Join(delays, ","), []int{1, 2, 4, 16}[r.Intn(4)], eof))
 			}
 			emit("empty", fmt.Sprintf("pipe %s - chunks=1 caps=0,nil delays=0 procs=2", defaultStart))
 		},
